@@ -341,7 +341,8 @@ void generate(Program &prog, dsim::Config &cfg, dsim::Rng &pr, dsim::Rng &cr, in
     default: T = n + 1 + static_cast<int>(pr.below(3)); break;
   }
   if (n > 8) T = 3 + static_cast<int>(pr.below(10));  // large capacities: a dozen threads, probe starts anywhere in the table
-  if (scale() >= 1 && pr.chance(1, 3)) T += 1 + static_cast<int>(pr.below(4));  // thorough tier: longer histories
+  if (scale() >= 2) T += 2 + static_cast<int>(pr.below(5));
+  else if (scale() >= 1 && pr.chance(1, 3)) T += 1 + static_cast<int>(pr.below(4));  // thorough tier: longer histories
   if (T > 18) T = 18;
   const int pattern = static_cast<int>(pr.below(4));  // all equal, adjacent, wrap (N-1), random
   const size_t base = pr.below(1000);
